@@ -75,6 +75,8 @@ def direct_predicate(c, tr):
                 return "partition", f"live {live} and dead {dead} do not partition {n} samples after {o[0]}"
         if sorted(zip(ids, keys)) != sorted(added):
             return "lost", f"stored samples {sorted(zip(ids, keys))} != added {sorted(added)} after {o[0]}"
+        if s.get("lp_ids") is not None and live is not None and s["lp_ids"] != [ids[i] for i in live]:
+            return "live-view", f"live_points returns samples {s['lp_ids']} but the live indices select {[ids[i] for i in live]} after {o[0]}"
         if s["lq"] != ids:
             return "detached", f"log_q rows {s['lq']} not attached to samples {ids} after {o[0]}"
         if o[0] == "add" and c["strict"] and thr is not None:
